@@ -1,6 +1,6 @@
 """Property -> rules mapping."""
 from .core import Ctx
-from .rules import k1, reclaim, schemes, seqlock, vyukov, harris, queues, deque
+from .rules import k1, reclaim, schemes, seqlock, vyukov, harris, queues, deque, leftright, markedptr, progress
 
 ALL_FILES = [".hpp"]
 RECL = ["reclamation/"]
@@ -49,6 +49,7 @@ def scheme_rules(ctx):
     schemes.qsbr_rules(ctx)
     schemes.stamp_rules(ctx)
     schemes.lfrc_rules(ctx)
+    schemes.list_push_rules(ctx)
 
 
 def C01(ctx):
@@ -66,7 +67,7 @@ def C01(ctx):
 def C02(ctx):
     ctx.only = ("K1.", "K4.reclaim-after-unlink", "HP.retire", "HP.thread-exit", "HP.delete-licensed", "HP.protocol",
                 "HE.retire", "HE.thread-exit", "HE.delete-licensed", "HE.protocol", "EBR.orphans", "EBR.thread-exit", "EBR.protocol",
-                "QSBR.protocol", "QSBR.thread-exit", "STAMP.", "LFRC.delete-licensed", "LFRC.thread-exit", "LFRC.protocol")
+                "QSBR.protocol", "QSBR.thread-exit", "STAMP.", "LFRC.delete-licensed", "LFRC.thread-exit", "LFRC.protocol", "LIST.")
     k1_rules(ctx, "C02")
     reclaim.reclaim_after_unlink(ctx, [".hpp"])
     scheme_rules(ctx)
@@ -180,7 +181,7 @@ def C11(ctx):
 def C17(ctx):
     ctx.only = ("K1.", "TBL.", "HP.thread-exit", "HP.block-init", "HP.active-gather", "HE.thread-exit", "HE.block-init", "HE.active-gather",
                 "EBR.thread-exit", "EBR.block-init", "EBR.activity", "EBR.orphans", "QSBR.thread-exit", "QSBR.block-init", "QSBR.activity",
-                "STAMP.thread-exit", "LFRC.thread-exit")
+                "STAMP.thread-exit", "LFRC.thread-exit", "LIST.")
     k1_rules(ctx, "C17")
     scheme_rules(ctx)
     return ("Decides structural necessary conditions of control-block recycling.", "boundedness of bookkeeping as a quantity")
@@ -202,6 +203,31 @@ def C12(ctx):
             "linearizability of owner/thief histories")
 
 
+def C13(ctx):
+    k1_rules(ctx, "C13")
+    leftright.rules(ctx)
+    return ("Decides the finite reader/writer table agreement of left_right (which instance each side touches for each indicator value), the order "
+            "wait(next) < version store < wait(current) with its index arithmetic, arrive-before-indicator-load in readers, functor calls under the "
+            "writer mutex, and the six memory orders (five seq_cst).", "linearizability of reads vs updates; that the two waits suffice")
+
+
+def C15(ctx):
+    k1_rules(ctx, "C15")
+    markedptr.rules(ctx)
+    return ("Decides: marked_ptr round trip bit by bit for every mark width 1..32 and three upper/lower splits (abstract interpretation of the -O1 IR), "
+            "concurrent_ptr order pass-through (frozen as param:order in the contract table).",
+            "the snapshot claim of guard_ptr::acquire under a concurrent writer")
+
+
+def C16(ctx):
+    progress.rules(ctx)
+    queues.kfifo(ctx)
+    ctx.only_skip = ("KF.aba", "KF.protocol", "OWN.")
+    return ("Decides: no wait construct (spin on a lock bit / flag / pending write, mutex acquisition) is reachable in the resolved call graph from any "
+            "operation documented lock-free or wait-free, any guard operation of any reclaimer, seqlock::load with more than one slot or left_right::read; "
+            "the bounded k-FIFO index fits its field (a solo livelock otherwise).", "a numeric bound on solo steps; loops whose termination rests on data-structure invariants")
+
+
 def C14(ctx):
     k1_rules(ctx, "C14")
     seqlock.rules(ctx)
@@ -209,7 +235,7 @@ def C14(ctx):
             "load/store/update, reader/writer slot-index agreement, memory orders.", "absence of torn reads under all interleavings")
 
 
-PROPS = {"C12": C12, "C04": C04, "C05": C05, "C06": C06, "C07": C07, "C14": C14, "C11": C11, "C08": C08, "C09": C09, "C01": C01, "C02": C02, "C03": C03, "C10": C10, "C17": C17, "C18": C18}
+PROPS = {"C13": C13, "C15": C15, "C16": C16, "C12": C12, "C04": C04, "C05": C05, "C06": C06, "C07": C07, "C14": C14, "C11": C11, "C08": C08, "C09": C09, "C01": C01, "C02": C02, "C03": C03, "C10": C10, "C17": C17, "C18": C18}
 
 
 def run(prop, tier):
